@@ -20,6 +20,18 @@ from quara.interface.cvxpy.qtomography.standard.minimization_algorithm import (
     CvxpyMinimizationAlgorithm, CvxpyMinimizationAlgorithmOption)
 
 PROP = "C11"
+import c10_translate
+LEAN_EXTRA_SOURCES = ("C10.lean",)
+
+
+def translate(ctx):
+    """regenerate lean/QGen/C10.lean from the projected-gradient sources (the table theorems of QProps/C10 are about it)"""
+    try:
+        c10_translate.translate()
+    except c10_translate.Untranslatable as e:
+        return [f"translator (QGen/C10.lean): {e}"]
+    return []
+
 WORKERS = max(1, min(8, (os.cpu_count() or 2) // 2))
 STOP_MODES = ["single_difference_loss", "sum_absolute_difference_loss", "sum_absolute_difference_variable",
               "sum_absolute_difference_projected_gradient"]
@@ -82,7 +94,8 @@ def make_specs(seed, quick, volume=1):
     # non-zero constant term vecB and A^T vecB != 0), 2-outcome POVM (no dependent-element metric issue, D13), plus QST / QPT
     for j, (fam, kind, shots) in enumerate([("fse", "povmt", 10), ("fse", "povmt", 1000), ("fre", "povmt", 10),
                                             ("fre", "povmt", 1000), ("fse", "povmt", "exact"), ("fre", "povmt", "exact"),
-                                            ("fse", "qst", 100), ("fre", "qst", 100), ("fse", "qpt", 100), ("fre", "qpt", 100)]):
+                                            ("fse", "qst", 100), ("fre", "qst", 100), ("fse", "qpt", 100), ("fre", "qpt", 100),
+                                            ("se", "qst", 100), ("re", "qst", 100), ("se", "povmt", 100), ("re", "povmt", 100)]):
         specs.append({"seed": seed, "salt": 900 + j + 1000 * volume, "sys": "1qubit", "kind": kind, "para": True, "fam": fam,
                       "mode": STOP_MODES[0], "nh": 1, "shots": shots, "truth": ["interior", "boundary"][j % 2],
                       "m": 2 if kind == "povmt" else None})
@@ -201,6 +214,33 @@ def eval_spec(spec):
                      f"(losses {fhat!r} vs {f(np.array(rg.estimated_var, dtype=float))!r})")
         except Exception as e:  # noqa
             viol(f"C11/pgdb/{kind}/raises", f"generic counterpart of {fam}: {type(e).__name__}: {e}")
+    # --- several data sets through ONE loss object and ONE algorithm object (calc_estimate_sequence, then the same
+    #     objects again in a second call): every element must be the estimate fresh objects give for that data set, and must
+    #     not be beaten (independent loss formula, that element's data) by the truth or by the fresh estimate
+    if spec["sys"] == "1qubit" and kind != "qmpt" and res.k <= 150 and (spec["salt"] % 2 == 0 or 900 <= spec["salt"] % 1000):
+        shots_b = 37 if spec["shots"] == "exact" else max(7, int(spec["shots"]) // 3)
+        empi_b = L.fewshot_data(g, qt, true, shots_b)
+        Lc, LOc = L.LOSSES[fam]
+        Ac, AOc = L.ALGOS["pgdb"]
+        lobj1, aobj1, aopt1, est1 = Lc(qt.num_variables), Ac(), AOc(**opt), L.LossMinimizationEstimator()
+        try:
+            rs, _ = L.quiet(est1.calc_estimate_sequence, qt, [empi, empi_b, empi], lobj1, LOc("identity"), aobj1, aopt1)
+            seq = [np.array(v, dtype=float) for v in rs.estimated_var_sequence]
+            r2, _ = L.quiet(est1.calc_estimate, qt, empi_b, lobj1, LOc("identity"), aobj1, aopt1)      # objects re-used again
+            seq.append(np.array(r2.estimated_var, dtype=float))
+            fresh_b = np.array(L.run_lme(qt, empi_b, fam, "pgdb", history=False, **opt)[0].estimated_var, dtype=float)
+            cnt("shared-loss-object sequences")
+            fb = lambda v: ref_loss(fam, qt, empi_b, v)  # noqa
+            for j, (got, want, lossf) in enumerate([(seq[0], xhat, f), (seq[1], fresh_b, fb), (seq[2], xhat, f), (seq[3], fresh_b, fb)]):
+                dj = float(np.linalg.norm(got - want))
+                gapj = lossf(got) - min(lossf(want), lossf(to_var(qt, true)))
+                if dj > 1e-7 or gapj > 1e-6 * max(1.0, abs(lossf(got))):
+                    viol(f"C11/pgdb/{kind}/stale-data-in-reused-loss-object",
+                         f"{fam}: element {j} of [a, b, a | b] through one loss object differs from the fresh estimate by {dj:.3e}; "
+                         f"loss on its own data {lossf(got)!r} vs {lossf(want)!r} (fresh)")
+                    break
+        except Exception as e:  # noqa
+            viol(f"C11/pgdb/{kind}/raises", f"{fam}: sequence through one loss object: {type(e).__name__}: {str(e)[:200]}")
     # --- optimality certificate
     tol_f = 1e-6 * scale
     comps = [("truth", to_var(qt, true))]
@@ -232,6 +272,19 @@ def eval_spec(spec):
                 break
     elif xc is not None:
         viol(f"C11/cvxpy/{kind}/non-finite", f"{fam}: CVXPY estimate contains nan/inf")
+    # --- the proved certificate (QProps.C11.eps_optimality_certificate) evaluated on the last recorded iteration:
+    #     f(x_next) - f(z) <= |y| (|grad f(x)| + mu |z - x|) for every physical competitor z
+    if cls == kind and len(res.y) >= 1:
+        xl, yl = np.array(res.x[-2], dtype=float), np.array(res.y[-1], dtype=float)
+        gl = np.array(lobj.gradient(xl), dtype=float)
+        for name, z in comps:
+            z = np.asarray(z, dtype=float)
+            fac = float(np.linalg.norm(gl) + mu * np.linalg.norm(z - xl))
+            bound = float(np.linalg.norm(yl)) * fac + 20e-7 * fac + 1e-9 * scale      # + accuracy of the physical projection
+            if np.isfinite(f(z)) and fhat - f(z) > bound:
+                viol(f"C11/pgdb/{kind}/certificate-violated",
+                     f"{fam} {mode}: f(estimate) - f({name}) = {fhat - f(z):.3e} > |y|(|grad|+mu|z-x|) = {bound:.3e}")
+                break
     if not hit_limit:
         for name, z in comps:
             fz = f(z)
@@ -283,8 +336,10 @@ def run_specs(ctx, specs):
 
 
 PARTIAL = [
-    "stop_bounds_projected_gradient_partial: the stopping rule bounds the projected-gradient residual of the last iteration; "
-    "epsilon-optimality of the stopped iterate (f(x) <= min_C f + eps) needs an error-bound constant of the loss and is not proved",
+    "stop_bounds_projected_gradient_partial / stop_mode_guarantees: epsilon-optimality of the returned estimate is proved in terms of "
+    "the stopping threshold AND the run-dependent accepted step size alpha and gradient norm of the last iteration "
+    "(f(x_next) - f(z) <= stopDelta * (|grad f(x)| + mu |z - x|)); an a-priori bound (lower bound on alpha from a Lipschitz constant "
+    "of the gradient, termination before the iteration limit) is not proved",
     "the SCS solver is not modelled: only the objective handed to CVXPY is (cvxSquaredError / cvxRelativeEntropy); the agreement "
     "of the two estimators is an oracle observation",
     "IsProjOn (the installed projection is the metric projection onto the physical set) is a hypothesis: C04/C05; it fails for "
